@@ -1,5 +1,6 @@
 """C10: reference counting of objects lent to the peer.
-Facts read off rpyc/lib/colls.py (RefCountingColl), rpyc/core/protocol.py (_box, _unbox, _handle_del, _cleanup)
+Facts read off rpyc/lib/colls.py (RefCountingColl), rpyc/core/protocol.py (_box, _unbox, _handle_del, _cleanup, close,
+_async_request, _dispatch_request's _last_traceback)
 and rpyc/core/netref.py (BaseNetref.__init__/__del__).  Typed items become the record Gen_colls.params that
 proofs/RefcountTie.v equates with the parameters the theorems are proved for; everything else is a shape."""
 from .core import *
@@ -106,12 +107,102 @@ def _handle_del(conn):
     return const_int(defaults[0])
 
 
-def _cleanup_clears(conn):
+_CLEANUP_SAFE = ("if self._closed and (not _anyway):\n    return", "self._closed = True", "self._channel.close()",
+                 "self._request_callbacks.clear()", "self._proxy_cache.clear()", "self._netref_classes_cache.clear()",
+                 "self._last_traceback = None", "self._remote_root = None", "self._local_root = None", "del self._HANDLERS")
+_CLEAR = "self._local_objects.clear()"
+_HOOK = "self._local_root.on_disconnect(self)"
+
+
+def _cleanup_facts(conn):
+    """(clears, guarded): the statement self._local_objects.clear() is present on the straight path of _cleanup, and it is
+    reached even when the service's on_disconnect hook raises (it precedes the hook, or sits in the `finally` of the try
+    around the hook).  Every other statement before the clear must be one of the known harmless ones (fail closed)."""
     fn = find_func(conn, "_cleanup")
-    n = sum(1 for x in ast.walk(fn) if isinstance(x, ast.Expr) and _u(x) == "self._local_objects.clear()")
-    top = sum(1 for x in strip_doc(fn.body) if _u(x) == "self._local_objects.clear()")
-    if n != top or n > 1:
-        raise Unrecognised("_cleanup: conditional or repeated clear")
+    body = strip_doc(fn.body)
+    n_all = sum(1 for x in ast.walk(fn) if isinstance(x, ast.Expr) and _u(x) == _CLEAR)
+    if n_all == 0:
+        return False, False
+    if n_all > 1:
+        raise Unrecognised("_cleanup: repeated clear")
+    seen_hook = False
+    for st in body:
+        t = _u(st)
+        if t == _CLEAR:
+            return True, not seen_hook
+        if t == _HOOK:
+            seen_hook = True
+        elif isinstance(st, ast.Try):
+            if st.handlers or st.orelse:
+                raise Unrecognised("_cleanup: try with handlers")
+            inner = [_u(x) for x in st.body]
+            fin = [_u(x) for x in st.finalbody]
+            if any(x != _HOOK and x not in _CLEANUP_SAFE for x in inner):
+                raise Unrecognised("_cleanup: statement inside try: " + repr(inner))
+            if _CLEAR in fin:
+                k = fin.index(_CLEAR)
+                if any(x not in _CLEANUP_SAFE for x in fin[:k]):
+                    raise Unrecognised("_cleanup: statement before the clear in finally")
+                return True, True
+            if _CLEAR in inner:
+                raise Unrecognised("_cleanup: clear inside try body")
+            if _HOOK in inner:
+                seen_hook = True
+        elif t not in _CLEANUP_SAFE:
+            raise Unrecognised("_cleanup: statement before the clear that may raise: " + t)
+    raise Unrecognised("_cleanup: conditional clear")
+
+
+def _close_finally(conn):
+    """close(): the _cleanup call sits in the `finally` of the try that runs the before_closed hook and sends CLOSE"""
+    fn = find_func(conn, "close")
+    body = strip_doc(fn.body)
+    if not (len(body) in (2, 3) and _u(body[0]) == "if self._closed:\n    return" and isinstance(body[1], ast.Try)):
+        raise Unrecognised("close: body")
+    tr = body[1]
+    want = ["self._closed = True",
+            "if self._config.get('before_closed'):\n    self._config['before_closed'](self.root)",
+            "self._async_request(consts.HANDLE_CLOSE)"]
+    if [_u(x) for x in tr.body] != want:
+        raise Unrecognised("close: try body")
+    hs = [(_u(h.type) if h.type else None, [_u(x) for x in h.body]) for h in tr.handlers]
+    if hs != [("EOFError", ["pass"]), ("Exception", ["if not self._config['close_catchall']:\n    raise"])]:
+        raise Unrecognised("close: handlers")
+    call = "self._cleanup(_anyway=True)"
+    fin = [_u(x) for x in tr.finalbody]
+    if fin == [call] and len(body) == 2:
+        return True
+    if not fin and len(body) == 3 and _u(body[2]) == call:
+        return False
+    raise Unrecognised("close: where _cleanup is called")
+
+
+def _send_checks_closed(conn):
+    """_async_request refuses to box anything once the channel is closed (EOFError before self._box(args))"""
+    fn = find_func(conn, "_async_request")
+    body = strip_doc(fn.body)
+    n_box = sum(1 for x in ast.walk(fn) if isinstance(x, ast.Call) and _u(x.func) == "self._box")
+    if n_box != 1:
+        raise Unrecognised("_async_request: boxing")
+    first = body[0]
+    guarded = False
+    if isinstance(first, ast.If):
+        if not (_u(first.test) in ("self._channel.closed", "self._closed and self._channel.closed") and not first.orelse
+                and len(first.body) == 1 and isinstance(first.body[0], ast.Raise)
+                and _u(first.body[0].exc).startswith("EOFError(")):
+            raise Unrecognised("_async_request: leading test " + _u(first))
+        guarded = _u(first.test) == "self._channel.closed"
+        body = body[1:]
+    if [_u(x) for x in body[:2]] != ["seq = self._get_seq_id()", "self._request_callbacks[seq] = callback"]:
+        raise Unrecognised("_async_request: prologue")
+    return guarded
+
+
+def _keeps_last_traceback(conn):
+    fn = find_func(conn, "_dispatch_request")
+    n = sum(1 for x in ast.walk(fn) if isinstance(x, ast.Assign) and _u(x) == "self._last_traceback = tb")
+    if n > 1:
+        raise Unrecognised("_dispatch_request: _last_traceback")
     return n == 1
 
 
@@ -150,7 +241,11 @@ def facts(repo):
     cmp_, ddef = _decref(colls)
     f = {"add_init": init, "add_inc": inc, "dec_cmp": cmp_, "decref_default": ddef,
          "handle_del_default": _handle_del(conn), "proxy_init": _netref_init(base), "unbox_inc": _unbox_inc(conn),
-         "del_src": _netref_del(base), "cleanup_clears": _cleanup_clears(conn)}
+         "del_src": _netref_del(base)}
+    f["cleanup_clears"], f["cleanup_guarded"] = _cleanup_facts(conn)
+    f["close_finally"] = _close_finally(conn)
+    f["send_checks_closed"] = _send_checks_closed(conn)
+    f["keeps_last_traceback"] = _keeps_last_traceback(conn)
     return f
 
 
@@ -158,7 +253,8 @@ def params_sx(repo):
     """the model's rparams in the order Refcount.params_of_sx expects"""
     f = facts(repo)
     return [f["add_init"], f["add_inc"], CMP_NUM[f["dec_cmp"]], f["handle_del_default"], f["proxy_init"], f["unbox_inc"],
-            f["del_src"][1], 1 if f["cleanup_clears"] else 0]
+            f["del_src"][1], 1 if f["cleanup_clears"] else 0, 1 if f["send_checks_closed"] else 0,
+            1 if f["cleanup_guarded"] else 0, 1 if f["close_finally"] else 0]
 
 
 def translate(repo):
@@ -177,11 +273,16 @@ def translate(repo):
                typed("dec_cmp", "rcmp", f["dec_cmp"]), typed("decref_default", "Z", coq_z(f["decref_default"])),
                typed("handle_del_default", "Z", coq_z(f["handle_del_default"])),
                typed("proxy_init", "Z", coq_z(f["proxy_init"])), typed("unbox_inc", "Z", coq_z(f["unbox_inc"])),
-               typed("del_src", "delsrc", f["del_src"][0]), typed("cleanup_clears", "bool", coq_bool(f["cleanup_clears"]))]
+               typed("del_src", "delsrc", f["del_src"][0]), typed("cleanup_clears", "bool", coq_bool(f["cleanup_clears"])),
+               typed("send_checks_closed", "bool", coq_bool(f["send_checks_closed"])),
+               typed("cleanup_guarded", "bool", coq_bool(f["cleanup_guarded"])),
+               typed("close_finally", "bool", coq_bool(f["close_finally"])),
+               typed("keeps_last_traceback", "bool", coq_bool(f["keeps_last_traceback"]))]
         out.append(typed("params", "rparams",
                          "{| p_add_init := add_init; p_add_inc := add_inc; p_dec_cmp := dec_cmp; "
                          "p_dec_default := handle_del_default; p_proxy_init := proxy_init; p_unbox_inc := unbox_inc; "
-                         "p_del_src := del_src; p_cleanup_clears := cleanup_clears |}"))
+                         "p_del_src := del_src; p_cleanup_clears := cleanup_clears; p_send_checks_closed := send_checks_closed; "
+                         "p_cleanup_guarded := cleanup_guarded; p_close_finally := close_finally |}"))
         return out
     guarded("params", typed_facts)
 
